@@ -122,7 +122,7 @@ ASSUME = ['custom checkers / rules that keep state of their own are outside the 
 
 def main(argv):
     return run_check('C16', [HistoryStream()], argv, trusted_base=TRUSTED, assumptions=ASSUME,
-                     translated=('checker', 'parser', 'guard', 'pin_rules'))
+                     translated=('checker', 'parser', 'guard', 'policy', 'pin_rules', 'pin_util'))
 
 
 if __name__ == '__main__':
